@@ -388,10 +388,11 @@ def data_cases(ctx):
 
 def run(ctx):
     ctx.make_overlay(need_kernel=True)
-    ctx.regen_all()
+    ctx.regen_all(needed=("py2v_prior.py",))  # Gen/PriorGen.v: JokerPrior.__init__'s validation loops and par_names as the source has them now
     ok = ctx.build_models(MODELS)
     if ok:
         ctx.build_props()
+        ctx.build_props("Props/C18g.vo")  # the generated loops are the model: exact accept set, parameter order
     cfgs = gen_configs(ctx)
     terms, kept, nt = run_prior_cases(ctx, cfgs)
     dc = data_cases(ctx)
